@@ -1,6 +1,7 @@
 package main
 
 import (
+	"time"
 	"bytes"
 	"crypto/sha256"
 	"encoding/base64"
@@ -41,7 +42,9 @@ type sink struct {
 	preHash  string
 	writes   int
 	syncs    int
+	syncing  int    // Sync calls that have begun and not yet returned
 	stream   []byte // what an append-only file behind this sink would hold
+	synced   int    // number of writes covered by a completed Sync
 }
 
 type sinkRec struct {
@@ -76,6 +79,13 @@ func (s *sink) Sync() error {
 	if s.failMode == 2 {
 		return errors.New("injected audit sync failure")
 	}
+	// a device that takes its time: whoever does not wait for it returns first
+	s.syncing++
+	s.mu.Unlock()
+	time.Sleep(20 * time.Microsecond)
+	s.mu.Lock()
+	s.syncing--
+	s.synced = s.writes
 	return nil
 }
 
@@ -493,7 +503,7 @@ func (w *dbWorld) genOp(r *rand.Rand, sh *shadow, profile string) dbOp {
 	}
 	// reserved-prefix names whose remainder is an ordinary secret's name: acting on the one must
 	// never touch the other
-	nameW := []string{"a", "a", "a", "b", "b", "dev/x", "_internal/k", "", "a\nb", "é/π", "_internal/a", "_internal/b", "_internal/dev/x", "dev/../a", "dev//x"}
+	nameW := []string{"a", "a", "a", "b", "b", "dev/x", "_internal/k", "", "a\nb", "é/π", "_internal/a", "_internal/b", "_internal/dev/x", "dev/../a", "dev//x", "a\n", " a", "a ", " ", "\ta"}
 	op.name = pick(r, nameW)
 	kinds := []string{"put", "put", "put", "put", "activate", "activate", "delver", "delver", "delete", "get", "getver", "getcond", "getcond", "info", "list"}
 	op.kind = pick(r, kinds)
@@ -652,7 +662,14 @@ func traceDB(o opts) error {
 				cp := op
 				retry = &cp
 			}
+			w.sk.mu.Lock()
+			writesBefore := w.sk.writes
+			w.sk.mu.Unlock()
 			res := w.exec(op)
+			// at the moment the call returned: was the record it wrote (if any) covered by a completed Sync?
+			w.sk.mu.Lock()
+			syncedAtReturn := b01(op.aok != 1 || w.sk.writes == writesBefore || (w.sk.syncing == 0 && w.sk.synced >= w.sk.writes))
+			w.sk.mu.Unlock()
 			ent, pre, err := w.entries()
 			if err != nil {
 				// a malformed audit record is itself an observation
@@ -667,8 +684,8 @@ func traceDB(o opts) error {
 			if err != nil {
 				disk = "ERR:" + hx(err.Error())
 			}
-			line := fmt.Sprintf("step\tc=%d\top=%s\tn=%s\tv=%d\tval=%s\taok=%s\tsok=%s\tres=%s\tent=%s\tpre=%s\tmem=%s\tdisk=%s\tgen=%d",
-				op.caller, op.kind, hx(op.name), op.ver, hb(op.val), b01(op.aok == 1), b01(op.sok), res, ent, pre, mem, disk, w.d.WriteGen())
+			line := fmt.Sprintf("step\tc=%d\top=%s\tn=%s\tv=%d\tval=%s\taok=%s\tsok=%s\tres=%s\tent=%s\tpre=%s\tmem=%s\tdisk=%s\tgen=%d\tsynced=%s",
+				op.caller, op.kind, hx(op.name), op.ver, hb(op.val), b01(op.aok == 1), b01(op.sok), res, ent, pre, mem, disk, w.d.WriteGen(), syncedAtReturn)
 			if o.profile == "persist" {
 				line += "\t" + w.reopenObs(kek)
 				if err == nil {
